@@ -518,31 +518,34 @@ func (r *runner) execOutputSwitch(name string, args []string, target string) {
 		c    *t38.Conn
 		json bool
 	}
-	var errR *t38.Value     // an error reply seen on a RESP-mode lane
-	var errJ *t38.JSONReply // an error reply seen on a JSON-mode lane
-	switched := 0
+	// The format of the reply shows the mode the connection is in afterwards:
+	// OUTPUT answers in the mode it switched to, and (impl-mirrored) a
+	// TIMEOUT wrapper whose deadline has passed reports "timeout" after the
+	// switch has taken effect, in the new mode; errors raised before OUTPUT
+	// ran come in the old mode and switch nothing.
+	var errsR []t38.Value
+	var errsJ []t38.JSONReply
+	okCount := 0
 	lanes := []lane{{"A/resp", r.tr.a, false}, {"B/json", r.tr.b, true}, {"C", r.tr.cc, r.tr.cc.JSON}}
 	for _, ln := range lanes {
 		v := r.doRESP(ln.c, ln.who, name, args)
-		nowJSON := ln.json
+		nowJSON := false
 		switch {
 		case v.Kind == '+' && v.Str == "OK" && target == "resp":
-			nowJSON = false
-			switched++
-		case v.IsErr() && !ln.json:
-			// refused (for instance a TIMEOUT wrapper whose deadline has passed): nothing switches
-			errR = &v
+			okCount++
+		case v.IsErr():
+			errsR = append(errsR, v)
 		case v.Kind == '$' && !v.Null:
+			nowJSON = true
 			rep := r.decode(ln.who, name, args, v.Str)
 			if d := elapsedOK(rep); d != "" {
 				r.fail("disagree:"+name, fmt.Sprintf("%s: %s: reply %s %s", ln.who, t38.CmdString(args), v.Str, d))
 			}
 			switch {
 			case rep.OK && target == "json" && len(rep.M) <= 2:
-				nowJSON = true
-				switched++
-			case !rep.OK && ln.json:
-				errJ = &rep
+				okCount++
+			case !rep.OK:
+				errsJ = append(errsJ, rep)
 			default:
 				r.fail("disagree:"+name, fmt.Sprintf("%s: %s switches to %s but answers %s", ln.who, t38.CmdString(args), target, v))
 			}
@@ -557,12 +560,24 @@ func (r *runner) execOutputSwitch(name string, args []string, target string) {
 		}
 	}
 	outcome := "ok"
-	if switched != len(lanes) {
+	if okCount != len(lanes) {
 		outcome = "err"
-		if switched != 0 || errR == nil || errJ == nil {
-			r.fail("disagree:"+name, fmt.Sprintf("%s: switched on %d of %d connections", t38.CmdString(args), switched, len(lanes)))
+		if okCount != 0 {
+			r.fail("disagree:"+name, fmt.Sprintf("%s: accepted on %d of %d connections", t38.CmdString(args), okCount, len(lanes)))
 		}
-		r.check(0, 1, "A/resp vs B/json", name, args, *errR, *errJ)
+		for _, e := range errsR {
+			if e.Str != errsR[0].Str {
+				r.fail("disagree:"+name, fmt.Sprintf("%s: different errors %q / %q", t38.CmdString(args), e.Str, errsR[0].Str))
+			}
+		}
+		for _, e := range errsJ {
+			if e.Err != errsJ[0].Err {
+				r.fail("disagree:"+name, fmt.Sprintf("%s: different errors %q / %q", t38.CmdString(args), e.Err, errsJ[0].Err))
+			}
+		}
+		if len(errsR) > 0 && len(errsJ) > 0 {
+			r.check(0, 1, "RESP-format vs JSON-format error", name, args, errsR[0], errsJ[0])
+		}
 	}
 	r.label("cmd:output/switch-" + target + "/" + outcome)
 	r.label("outcome:" + outcome)
